@@ -12,7 +12,7 @@ EXTENDS Core, Json
 
 CONSTANTS Depth,      \* scenario length
           KindBag,    \* sequence of input kinds to draw from (duplicates are weights)
-          HistMode    \* TRUE: realms are configured with event history
+          Mode        \* "" | "hist" (realms with event history) | "authz" (realms with an authorizer)
 
 VARIABLE h            \* the inputs so far
 
@@ -65,7 +65,11 @@ Sids   == {sess[s].id : s \in DOMAIN sess}
 
 NextId(S) == IF S = {} THEN 1 ELSE (CHOOSE n \in S : \A m \in S : m <= n) + 1
 
-Step(i, S) == Commit(S) /\ h' = Append(h, i)
+Step(i, S) ==
+  /\ h' = Append(h, i)
+  /\ LET dec == IF MsgType(i) = "" THEN "allow" ELSE Decision(Cur, i.s, MsgType(i)) IN
+     IF dec \in {"allow", "rewrite"} THEN Commit(S)
+     ELSE Commit(RefuseFx(Cur, i.s, TypeCode(MsgType(i)), i.req, dec, i.op = "publish" /\ ~i.o.ack))
 
 \* --------------------------------------------------------------------------
 \* inputs.  Random draws are bound by \E x \in {draw} so that each is made once
@@ -297,11 +301,21 @@ HistCfgs == {<<[u |-> U_ab, m |-> "exact", n |-> 2]>>,
              <<[u |-> U_a, m |-> "prefix", n |-> 3]>>,
              <<[u |-> U_adot, m |-> "wildcard", n |-> 2], [u |-> U_ab, m |-> "", n |-> 1]>>,
              <<[u |-> U_x, m |-> "prefix", n |-> 4], [u |-> U_a, m |-> "prefix", n |-> 1]>>}
-GenCfg(st, d, hc) == [strict |-> st, disclose |-> d, metakill |-> TRUE, hcfg |-> hc, users |-> Users]
+AuthzSets == {<<[mt |-> "PUBLISH", who |-> "remote", dec |-> "deny"], [mt |-> "CALL", who |-> "user", dec |-> "fail"]>>,
+              <<[mt |-> "SUBSCRIBE", who |-> "user", dec |-> "deny"], [mt |-> "REGISTER", who |-> "remote", dec |-> "fail"],
+                [mt |-> "PUBLISH", who |-> "admin", dec |-> "rewrite"]>>,
+              <<[mt |-> "CALL", who |-> "any", dec |-> "rewrite"], [mt |-> "UNSUBSCRIBE", who |-> "any", dec |-> "deny"],
+                [mt |-> "CANCEL", who |-> "remote", dec |-> "deny"], [mt |-> "YIELD", who |-> "trusted", dec |-> "fail"]>>,
+              <<[mt |-> "UNREGISTER", who |-> "any", dec |-> "fail"], [mt |-> "YIELD", who |-> "remote", dec |-> "rewrite"],
+                [mt |-> "PUBLISH", who |-> "local", dec |-> "deny"]>>,
+              <<[mt |-> "PUBLISH", who |-> "any", dec |-> "allow"]>>}
+GenCfg(st, d, hc, az, la) == [strict |-> st, disclose |-> d, metakill |-> TRUE, hcfg |-> hc, users |-> Users,
+                              authz |-> az, lauthz |-> la]
 
 \* several initial states: the simulator draws one per behaviour
-GenInit == h = <<>> /\ \E st \in {0, 1, 2}, d \in BOOLEAN, hc \in (IF HistMode THEN HistCfgs ELSE {<<>>}) :
-                         InitWith(GenCfg(st = 2, d, hc))
+GenInit == h = <<>> /\ \E st \in {0, 1, 2}, d \in BOOLEAN, hc \in (IF Mode = "hist" THEN HistCfgs ELSE {<<>>}),
+                            az \in (IF Mode = "authz" THEN AuthzSets ELSE {<<>>}), la \in (IF Mode = "authz" THEN BOOLEAN ELSE {FALSE}) :
+                         InitWith(GenCfg(st = 2, d, hc, az, la))
 GenSpec == GenInit /\ [][GenNext]_gvars
 
 \* prints the finished scenario (evaluated on every state of the simulation)
